@@ -108,8 +108,15 @@ def _interp1d_call(self, ex, st, fv, xq, node):
     i = bvar("i")
     xi, xi1 = to_z3(as_real(x.at(i))), to_z3(as_real(x.at(i + 1)))
     yi, yi1 = to_z3(as_real(y.at(i))), to_z3(as_real(y.at(i + 1)))
+    saved = ex.checking
+    ex.checking = False
+    try:
+        lin = ex.scalar_binop(ast.Add(), yi, ex.scalar_binop(ast.Div(), ex.scalar_binop(ast.Mult(), to_z3(xq) - xi, yi1 - yi, st, node),
+                                                             xi1 - xi, st, node), st, node)
+    finally:
+        ex.checking = saved
     st.assume(z3.ForAll([i], z3.Implies(z3.And(i >= 0, i < n - 1, xi <= to_z3(xq), to_z3(xq) <= xi1),
-                                        z3.And(r == yi + (to_z3(xq) - xi) * (yi1 - yi) / (xi1 - xi),
+                                        z3.And(r == lin,
                                                z3.Implies(to_z3(xq) == xi, r == yi),
                                                z3.Implies(to_z3(xq) == xi1, r == yi1)))))
     return r
